@@ -6,6 +6,12 @@ the current `find`, re-inserts it, and when the rewritten value is already prese
 id calls the merge function on the two ids (here: keep the smaller id, emit the union of the two,
 which is what the e-graph's merge function and the harness's do) — the union only becomes visible
 to `find` after the next `merge_all`, so a pass is a single sweep, not a fixpoint.
+
+Not modelled: the code also rewrites the entry's OWN id (`rebuilder.rebuild_val(old_val)`).  Ids
+of containers are unioned only by the merge function, and the loser of a merge leaves the table in
+the same pass, so at the start of a pass no id of a stored container is displaced; the
+correspondence run checks exactly this precondition on every pass before it compares (a pass that
+does not meet it is counted as skipped, never compared).
 -/
 namespace EgglogVerif.Intern
 
